@@ -374,6 +374,12 @@ class Verdict:
                                            + ("rc=%d; axioms: %s" % (c["rc"], ", ".join(c["axioms"]) or "<none>")))
         if extra:
             cov.update(extra)
+        try:
+            head = subprocess.run(["git", "-C", REPO, "rev-parse", "--short", "HEAD"], capture_output=True, text=True, timeout=20).stdout.strip()
+            dirty = bool(subprocess.run(["git", "-C", REPO, "status", "--porcelain", "--untracked-files=no"], capture_output=True, text=True, timeout=20).stdout.strip())
+            cov["repo_tree"] = {"path": REPO, "commit": head, "modified_working_tree": dirty}
+        except Exception:
+            pass
         if self.viol_by_key:
             cov["violations_by_class"] = self.viol_by_key
         for k in self.known:
